@@ -97,6 +97,23 @@ def judge_line(elt, kvar, vvar, table, newline_added):
     else:
         has_val = any(p[0] == 'val' and (contains(p[1], ('sub', table, kvar)) or
                                          any(t for t in [p[1]] if contains(t, ('mcall', table, 'get', (kvar,), ())))) for p in ps)
+    # the number written is the label's address itself (any notation), not something computed from it
+    def bare(v):
+        v = strip(v)
+        while v[0] == 'call' and v[1] in ('hex', 'str', 'int', 'repr', 'format', 'oct', 'bin') and v[2]:
+            v = strip(v[2][0])
+        return v
+    addr = vvar if vvar is not None else None
+    for p in ps:
+        if p[0] != 'val':
+            continue
+        b = bare(p[1])
+        is_addr = (addr is not None and b == addr) or (addr is None and (b == ('sub', table, kvar) or b == ('mcall', table, 'get', (kvar,), ())))
+        mentions_addr = (addr is not None and contains(b, addr)) or (addr is None and contains(b, ('sub', table, kvar)))
+        if mentions_addr and not is_addr:
+            if b[0] in ('bin', 'un'):
+                return False, 'the number written for a label is {} instead of the address assemble() computed for it'.format(show(b)[:60])
+            return None, 'the number written for a label ({}) is not followed back to its address'.format(show(b)[:60])
     lits = ''.join(p[1] for p in ps if p[0] == 'lit')
     terminated = bool(ps) and ps[-1][0] == 'lit' and ps[-1][1].endswith('\n')
     one_line = lits.count('\n') == 1
@@ -177,6 +194,25 @@ def run(repo, tier):
             rep.check(exit_arg_ok(exc), 'R17.5.status', 'failing exit {} has a non-zero status'.format(txt[:50]),
                       lambda p=p, txt=txt: Finding('R17.5.status', 'cli_main', p.events[-1][2], 'this exit reports success (status 0 / no message): {}'.format(txt[:60]),
                                                    line=p.events[-1][2].lineno), nontrivial=False)
+            continue
+        # ---- a failure handler that ends in `return <status>` ------------------------------------------------------------
+        handled = [e for e in pe.of('EXCEPT') if ('ASM' in inside.get(id(e.node), set()) or 'CONV' in inside.get(id(e.node), set()))]
+        if p.end == 'return' and handled and not asm:
+            rv = [e for e in p.events if e[0] == 'return']
+            val = strip(rv[-1][1]) if rv and rv[-1][1] is not None else C(None)
+            node_r = rv[-1][2] if rv else handled[-1].node
+            if is_const(val) and val[1] in (None, 0, False, ''):
+                rep.fail(Finding('R17.5.status', 'cli_main', node_r, 'the handler for a failed assembly returns {!r}: the run ends with exit status 0'.format(val[1]),
+                                 line=node_r.lineno), instance='failing path returns a non-zero status that reaches the process')
+            elif is_const(val):
+                lost = discarded_return_sites(facts)
+                rep.check(not lost, 'R17.5.status', 'failing path returns a non-zero status that reaches the process',
+                          lambda lost=lost, node_r=node_r, val=val: Finding('R17.5.status', 'cli_main', node_r,
+                                                                         'a failed assembly makes cli_main return {!r}, but the call at line {} discards the value: run that way '
+                                                                         '(python -m bronzebeard.asm) the process exits 0 after the error'.format(val[1], lost[0].lineno),
+                                                                         line=node_r.lineno))
+            else:
+                undecided.append('a failure handler returns {} (not a constant status)'.format(show(val)[:60]))
             continue
         # ---- successful paths --------------------------------------------------------------------------------------
         if pe.args is None or not asm:
@@ -365,6 +401,17 @@ def judge_labels(wr, op, table, path):
             return None, 'label names are not iterated by a single variable'
         kvar, vvar = vs[0], None
     return judge_line(src['elt'], kvar, vvar, table, newline_added)
+
+
+def discarded_return_sites(facts):
+    """Module-level calls of cli_main() whose result is thrown away (`if __name__ == '__main__': cli_main()`): a status that
+    cli_main *returns* never becomes the exit status there.  sys.exit(cli_main()) / raise SystemExit(cli_main()) keep it."""
+    out = []
+    for st in facts.tree.body:
+        for n in ast.walk(st) if not isinstance(st, (ast.FunctionDef, ast.ClassDef)) else []:
+            if isinstance(n, ast.Expr) and isinstance(n.value, ast.Call) and isinstance(n.value.func, ast.Name) and n.value.func.id == 'cli_main':
+                out.append(n)
+    return out
 
 
 def judge_hex_args(fin, fout, off, o_out, o_hex, args_value):
